@@ -22,8 +22,12 @@
 #include <sys/syscall.h>
 #include <unistd.h>
 #include <algorithm>
+#include <cerrno>
 #include <chrono>
+#include <cstdint>
+#include <cstdlib>
 #include <iomanip>
+#include <limits>
 #include <map>
 #include <memory>
 #include <optional>
@@ -663,14 +667,36 @@ bool BaseKillPlugin::setxattr(
   return true;
 }
 
+namespace {
+/*
+ * Counter xattrs may have been left by an earlier oomd, or (user.*) set by
+ * whoever owns the cgroup. Read them like std::stoi did - leading integer,
+ * rest ignored - but never throw: no number at all counts as 0 and the
+ * arithmetic is done in 64 bits and saturates.
+ */
+int64_t readCounterXattr(const std::string& str) {
+  errno = 0;
+  return std::strtoll(str.c_str(), nullptr, 10); // clamps on overflow
+}
+
+int64_t addToCounter(int64_t counter, int64_t n) {
+  int64_t res;
+  if (__builtin_add_overflow(counter, n, &res)) {
+    return n > 0 ? std::numeric_limits<int64_t>::max()
+                 : std::numeric_limits<int64_t>::min();
+  }
+  return res;
+}
+} // namespace
+
 void BaseKillPlugin::reportKillInitiationToXattr(
     const std::string& cgroupPath) {
   // Helper function that reports kill initiation to an extended attribute
   const auto reportKillHelperFunc = [this,
                                      &cgroupPath](const std::string& xattr) {
     auto prevXattrStr = getxattr(cgroupPath, xattr);
-    const int prevXattr = std::stoi(prevXattrStr != "" ? prevXattrStr : "0");
-    std::string newXattrStr = std::to_string(prevXattr + 1);
+    const int64_t prevXattr = readCounterXattr(prevXattrStr);
+    std::string newXattrStr = std::to_string(addToCounter(prevXattr, 1));
 
     if (setxattr(cgroupPath, xattr, newXattrStr)) {
       OLOG << "Set xattr " << xattr << "=" << newXattrStr << " on "
@@ -688,8 +714,9 @@ void BaseKillPlugin::reportKillCompletionToXattr(
   const auto reportKillHelperFunc = [this, &cgroupPath, numProcsKilled](
                                         const std::string& xattr) {
     auto prevXattrStr = getxattr(cgroupPath, xattr);
-    const int prevXattr = std::stoi(prevXattrStr != "" ? prevXattrStr : "0");
-    std::string newXattrStr = std::to_string(prevXattr + numProcsKilled);
+    const int64_t prevXattr = readCounterXattr(prevXattrStr);
+    std::string newXattrStr =
+        std::to_string(addToCounter(prevXattr, numProcsKilled));
 
     if (setxattr(cgroupPath, xattr, newXattrStr)) {
       OLOG << "Set xattr " << xattr << "=" << newXattrStr << " on "
